@@ -46,6 +46,13 @@ import (
 const ChainID = "elystestnet-1"
 const GenesisTime = int64(1700000000)
 
+func (c Config) genesisTime() int64 {
+	if c.GenesisTime != 0 {
+		return c.GenesisTime
+	}
+	return GenesisTime
+}
+
 // Actor is an account with a deterministic key.
 type Actor struct {
 	Name string
@@ -73,6 +80,9 @@ type DenomCfg struct {
 
 // Config fixes everything about a world that is not a transaction.
 type Config struct {
+	// GenesisTime (unix seconds); 0 = the fixed default. Only the wall-clock-straddling variant of the
+	// crash-kill scenario sets it (to the real time of the run).
+	GenesisTime int64
 	NUsers        int
 	Denoms        []DenomCfg
 	ExtraFeeders  int
@@ -342,7 +352,7 @@ func BuildGenesis(a *app.ElysApp, cfg Config, all []*Actor, feeders []*Actor, vo
 	cg := app.CreateMinimalConsumerTestGenesis()
 	cg.Provider.InitialValSet = ivp
 	cg.Provider.ConsensusState.NextValidatorsHash = cmttypes.NewValidatorSet(vals).Hash()
-	cg.Provider.ConsensusState.Timestamp = time.Unix(GenesisTime, 0).UTC()
+	cg.Provider.ConsensusState.Timestamp = time.Unix(cfg.genesisTime(), 0).UTC()
 	cg.Params.Enabled = true
 	gs[consumertypes.ModuleName] = cdc.MustMarshalJSON(cg)
 
@@ -408,7 +418,7 @@ func BuildGenesis(a *app.ElysApp, cfg Config, all []*Actor, feeders []*Actor, vo
 		cdc.MustUnmarshalJSON(gs[tokenomicstypes.ModuleName], &tg)
 		for i, ac := range all {
 			if i%4 == 3 {
-				tg.AirdropList = append(tg.AirdropList, tokenomicstypes.Airdrop{Intent: ac.Addr.String(), Authority: ac.Addr.String(), Amount: 1_000_000, Expiry: uint64(GenesisTime + 86400*365)})
+				tg.AirdropList = append(tg.AirdropList, tokenomicstypes.Airdrop{Intent: ac.Addr.String(), Authority: ac.Addr.String(), Amount: 1_000_000, Expiry: uint64(cfg.genesisTime() + 86400*365)})
 			}
 		}
 		gs[tokenomicstypes.ModuleName] = cdc.MustMarshalJSON(&tg)
@@ -456,7 +466,7 @@ func NewWorld(cfg Config) *World {
 	if err != nil {
 		panic(err)
 	}
-	w := &World{Cfg: cfg, Home: home, Now: GenesisTime, Prices: map[string]math.LegacyDec{}, Silent: map[string]bool{}, byAddr: map[string]*Actor{},
+	w := &World{Cfg: cfg, Home: home, Now: cfg.genesisTime(), Prices: map[string]math.LegacyDec{}, Silent: map[string]bool{}, byAddr: map[string]*Actor{},
 		OkCount: map[string]int{}, FailCount: map[string]int{}, FailLogs: map[string]string{}}
 	w.Gov = authtypes.NewModuleAddress(govtypes.ModuleName).String()
 	if cfg.LevelDBDir != "" {
@@ -500,7 +510,7 @@ func NewWorld(cfg Config) *World {
 }
 
 func (w *World) InitChainReq() *abci.RequestInitChain {
-	return &abci.RequestInitChain{ChainId: ChainID, ConsensusParams: consensusParams, AppStateBytes: w.GenesisBytes, Time: time.Unix(GenesisTime, 0).UTC()}
+	return &abci.RequestInitChain{ChainId: ChainID, ConsensusParams: consensusParams, AppStateBytes: w.GenesisBytes, Time: time.Unix(w.Cfg.genesisTime(), 0).UTC()}
 }
 
 func (w *World) Close() {
